@@ -195,6 +195,9 @@ def check(run):
         for a in sorted(set([rng.randrange(base, base + sum(lens) + 2) for _ in range(4)] + [starts[min(k + 1, rend[k] - 1)]])):
             b2 = z.getblock(starts[k])
             addr = cpu.cst(a, b2.address.size)
+            if rng.random() < 0.6:
+                # the block has been looked at before it is cut (bytes, extent, comparisons): part of its history
+                b2.raw(), b2.length, b2.support, b2 == b, len(b2.instr), str(b2.address)
             try:
                 removed = b2.cut(addr)
             except Exception as x:
@@ -204,6 +207,11 @@ def check(run):
             cut_rows.append("(%d, %s, %d, (%s, %d))" % (base, clist(map(str, lens)), a, clist(map(str, rest)), removed))
             if b2.instr and b2.raw() != raw[base:base + sum(rest)]:
                 run.violation("cut|raw", "after cut(%#x) the block's bytes are not the prefix of the original block" % a, dict(rep, address=a))
+            elif b2.instr and (b2.address.value, b2.support[0].value, b2.support[1].value, b2.length) != (base, base, base + sum(rest), sum(rest)):
+                run.violation("cut|extent", "after cut(%#x) the block's address/support/length %r do not describe its instructions" % (
+                    a, (b2.address.value, b2.support[0].value, b2.support[1].value, b2.length)), dict(rep, address=a))
+            elif b2.instr and removed > 0 and (b2 == b or not (b2 == z.getblock(starts[k])[0:sum(rest)])):
+                run.violation("cut|compare", "after cut(%#x) the block still compares equal to the uncut block (or differs from the same prefix taken afresh)" % a, dict(rep, address=a))
             # slice [0:offset]
             off = a - base
             if 0 < off <= sum(lens):
@@ -246,6 +254,11 @@ def check(run):
                     break
                 k0 = starts.index(a)
                 sup.append((k0, k0 + len(n.data.instr)))
+                ln = sum(i.length for i in n.data.instr)
+                if (n.data.raw(), n.data.length, n.data.support[1].value) != (raw[a:a + ln], ln, a + ln):
+                    bad = "the support block at %#x reports bytes/length/extent (%s, %d, %#x) but holds the instructions of [%#x,%#x)" % (
+                        a, n.data.raw().hex(), n.data.length, n.data.support[1].value, a, a + ln)
+                    break
                 instrs += [i.address.value for i in n.data.instr]
             want_instrs = sorted({starts[j] for k in order for j in range(k, rend[k])})
             nontriv = len(sup) != len(set(order)) or any(rend[a] != b for a, b in sup)
